@@ -174,10 +174,27 @@ impl World1 {
 // The per-frame animator rule shared by C18 and C19 ("predict the allowed outcomes, check the
 // observation is one of them, continue from the observation").
 
+enum Twin {
+    One(ATimeline),
+    Many(MergedTimeline<ATimeline>),
+}
+
+impl Twin {
+    fn update(&self, v: &mut A, t: f32) {
+        match self {
+            Twin::One(x) => x.update(v, t),
+            Twin::Many(x) => x.update(v, t),
+        }
+    }
+}
+
 struct TlInForce {
+    /// the (first) component's description
     desc: TlDesc,
-    twin: ATimeline,
-    model: ModelTl,
+    /// further components when the installed timeline is a MergedTimeline
+    more: Vec<TlDesc>,
+    twin: Twin,
+    models: Vec<ModelTl>,
     /// values substituted by start_with (selector blends), None for a plain timeline
     start: Option<A>,
 }
@@ -188,7 +205,32 @@ impl TlInForce {
         if let Some(s) = start {
             twin.start_with(s);
         }
-        TlInForce { desc: desc.clone(), twin, model: ModelTl::new(desc), start: start.cloned() }
+        TlInForce { desc: desc.clone(), more: vec![], twin: Twin::One(twin), models: vec![ModelTl::new(desc)], start: start.cloned() }
+    }
+    /// a merged timeline of `desc` and `more` (later components win on shared properties)
+    fn merged(desc: &TlDesc, more: &[TlDesc]) -> Self {
+        let mut all = vec![desc.clone()];
+        all.extend(more.iter().cloned());
+        let twin = MergedTimeline::of(all.iter().map(build_a));
+        TlInForce { desc: desc.clone(), more: more.to_vec(), twin: Twin::Many(twin), models: all.iter().map(ModelTl::new).collect(), start: None }
+    }
+    fn parts(&self) -> impl Iterator<Item = &TlDesc> {
+        std::iter::once(&self.desc).chain(self.more.iter())
+    }
+    /// smallest component delay
+    fn delay(&self) -> f64 {
+        self.parts().map(|d| d.timing.delay as f64).fold(f64::INFINITY, f64::min)
+    }
+    /// largest component total (infinite if any repeats infinitely)
+    fn total(&self) -> f64 {
+        self.parts().map(|d| d.timing.total()).fold(0.0, f64::max)
+    }
+    fn total_exact(&self) -> bool {
+        self.parts().all(|d| exact32(d.timing.total()) && exact32(d.timing.cycle as f64 * d.timing.repeat.cycles().unwrap_or(1) as f64))
+    }
+    /// terminal value of property i: that of the last component animating it
+    fn terminal(&self, i: usize) -> Option<f64> {
+        self.models.iter().rev().find_map(|m| m.terminal(i))
     }
 }
 
@@ -225,10 +267,9 @@ fn judge_animator_frame_t(tl: Option<&TlInForce>, enabled: bool, delta: Duration
         }
         return Ok(facts);
     };
-    let tm = tl.desc.timing;
     let s0 = secs(pos0);
-    let total = tm.total();
-    let delay = tm.delay as f64;
+    let total = tl.total();
+    let delay = tl.delay();
     let pos_exact = pos0.as_nanos() % 1_953_125 == 0 && exact32(s0);
     let decide = |limit: f64, limit_exact: bool| -> (bool, bool) {
         // (reached, ambiguous)
@@ -245,7 +286,7 @@ fn judge_animator_frame_t(tl: Option<&TlInForce>, enabled: bool, delta: Duration
             (s0 >= limit, false)
         }
     };
-    let total_exact = exact32(total) && exact32(tm.cycle as f64 * tm.repeat.cycles().unwrap_or(1) as f64);
+    let total_exact = tl.total_exact();
     let (ended, ended_amb) = decide(total, total_exact);
     let (started, started_amb) = if st0 == AnimationState::Playing {
         // states only move forward: a Playing animator stays Playing (e.g. after set_timeline
@@ -337,7 +378,7 @@ fn judge_animator_frame_t(tl: Option<&TlInForce>, enabled: bool, delta: Duration
     // terminal values when Ended is (newly) reported: model values, exact domain
     if entered_ended && !ended_amb {
         for i in 0..NPROP {
-            if let Some(want) = tl.model.terminal(i) {
+            if let Some(want) = tl.terminal(i) {
                 // a start_with value can only be terminal for ... nothing: terminal is 100 % or original 0 %
                 let got = comp1.get(i);
                 let ok = if PROP_IS_INT[i] { got == want } else { got as f32 == want as f32 || ulps_between(got as f32, want as f32) <= 2 };
@@ -384,6 +425,10 @@ pub struct C18Case {
     pub bystanders: u8,
     pub tl: TlDesc,
     pub other: TlDesc,
+    /// when set, the main timeline is installed as `MergedTimeline::of([tl, extra])` (a staggered
+    /// pair: `extra` often has the same cycle as `tl` and another delay)
+    #[serde(default)]
+    pub extra: Option<TlDesc>,
     pub with_timeline: bool,
     pub start_disabled: bool,
     pub start: Vals,
@@ -422,18 +467,36 @@ fn c18_strategy() -> impl Strategy<Value = C18Case> {
         desc::vals_strategy(),
         prop::collection::vec(op, 1..=40),
         prop_oneof![2 => Just(0u8), 3 => 0u8..8],
+        prop::option::weighted(0.25, (desc::tl_strategy_animator(bevy_timing_strategy()), any::<bool>())),
     )
-        .prop_map(|(tl, other, with_timeline, start_disabled, start, ops, bystanders)| C18Case { bystanders, tl, other, with_timeline, start_disabled, start, ops })
+        .prop_map(|(tl, other, with_timeline, start_disabled, start, ops, bystanders, extra)| {
+            // a staggered pair: same cycle, another delay (half of the time)
+            let extra = extra.map(|(mut x, same_cycle)| {
+                if same_cycle {
+                    x.timing.cycle = tl.timing.cycle;
+                }
+                x
+            });
+            C18Case { bystanders, tl, other, extra, with_timeline, start_disabled, start, ops }
+        })
 }
 
-const C18_LABELS: [&str; 17] = ["reached_ended", "frame_skipped_a_phase", "zero_frame", "disabled_frames", "reset_used", "set_timeline_used", "infinite", "exact_end_decision", "near_band", "playing_evaluated", "delayed", "no_timeline_start", "idle_bystander_first", "clock_paused_or_scaled", "frame_without_target_component", "frame_landing_next_to_the_end", "position_written_by_the_application"];
+const C18_LABELS: [&str; 18] = ["reached_ended", "frame_skipped_a_phase", "zero_frame", "disabled_frames", "reset_used", "set_timeline_used", "infinite", "exact_end_decision", "near_band", "playing_evaluated", "delayed", "no_timeline_start", "idle_bystander_first", "clock_paused_or_scaled", "frame_without_target_component", "frame_landing_next_to_the_end", "position_written_by_the_application", "merged_timeline_installed"];
 
 fn c18_judge(c: &C18Case, obs: &mut Obs) -> Result<(), String> {
     let mut app = App::new();
     app.add_plugins(AnimationPlugin::<A>::new());
     app.insert_resource(Time::default());
     let start = A::from_vals(&c.start);
-    let mut animator = if c.with_timeline { Animator::with_timeline(build_a(&c.tl)) } else { Animator::new() };
+    let main_in_force = || match &c.extra {
+        Some(x) => TlInForce::merged(&c.tl, std::slice::from_ref(x)),
+        None => TlInForce::new(&c.tl, None),
+    };
+    let mut animator = match (c.with_timeline, &c.extra) {
+        (false, _) => Animator::new(),
+        (true, None) => Animator::with_timeline(build_a(&c.tl)),
+        (true, Some(x)) => Animator::with_timeline(MergedTimeline::of([build_a(&c.tl), build_a(x)])),
+    };
     if c.start_disabled {
         animator = animator.as_disabled();
     }
@@ -456,7 +519,8 @@ fn c18_judge(c: &C18Case, obs: &mut Obs) -> Result<(), String> {
     };
     obs.label_if(12, c.bystanders & 3 != 0);
     let mut w = World1::new(app, entity);
-    let mut cur: Option<TlInForce> = if c.with_timeline { Some(TlInForce::new(&c.tl, None)) } else { None };
+    let mut cur: Option<TlInForce> = if c.with_timeline { Some(main_in_force()) } else { None };
+    obs.label_if(17, c.extra.is_some());
     obs.label_if(11, !c.with_timeline);
     obs.label_if(6, c.tl.timing.repeat == Rep::Infinite);
     obs.label_if(10, c.tl.timing.delay > 0.0);
@@ -472,9 +536,17 @@ fn c18_judge(c: &C18Case, obs: &mut Obs) -> Result<(), String> {
                 obs.label(4);
             }
             BOp::SetTimeline(other) => {
-                let d = if other { &c.other } else { &c.tl };
-                w.app.world.get_mut::<Animator<A>>(entity).unwrap().set_timeline(build_a(d));
-                cur = Some(TlInForce::new(d, None));
+                match (other, &c.extra) {
+                    (false, Some(x)) => {
+                        w.app.world.get_mut::<Animator<A>>(entity).unwrap().set_timeline(MergedTimeline::of([build_a(&c.tl), build_a(x)]));
+                        cur = Some(main_in_force());
+                    }
+                    _ => {
+                        let d = if other { &c.other } else { &c.tl };
+                        w.app.world.get_mut::<Animator<A>>(entity).unwrap().set_timeline(build_a(d));
+                        cur = Some(TlInForce::new(d, None));
+                    }
+                }
                 obs.label(5);
             }
             BOp::Clock(k) => {
@@ -489,9 +561,8 @@ fn c18_judge(c: &C18Case, obs: &mut Obs) -> Result<(), String> {
                 obs.label(13);
             }
             BOp::Seek(sel) => {
-                let tm = cur.as_ref().map(|t| t.desc.timing);
-                let total = tm.map(|t| t.total()).filter(|t| t.is_finite()).unwrap_or(2.0);
-                let delay = tm.map(|t| t.delay as f64).unwrap_or(0.0);
+                let total = cur.as_ref().map(|t| t.total()).filter(|t| t.is_finite()).unwrap_or(2.0);
+                let delay = cur.as_ref().map(|t| t.delay()).unwrap_or(0.0);
                 let secs = match sel % 6 {
                     0 => 0.0,
                     1 => delay,
@@ -518,7 +589,7 @@ fn c18_judge(c: &C18Case, obs: &mut Obs) -> Result<(), String> {
                     BOp::Frame(sel) => DELTAS_NS[sel as usize % DELTAS_NS.len()],
                     BOp::FrameToEnd(sel) => {
                         const OFF: [i64; 9] = [-2, -1, 0, 1, 2, 40, 400, 900, 1500];
-                        let total = cur.as_ref().map(|t| t.desc.timing.total()).unwrap_or(f64::INFINITY);
+                        let total = cur.as_ref().map(|t| t.total()).unwrap_or(f64::INFINITY);
                         let target = (total * 1e9).round() + OFF[sel as usize % OFF.len()] as f64;
                         let ahead = target - pos0.as_nanos() as f64;
                         if total.is_finite() && ahead > 0.0 && ahead < 1e15 {
